@@ -412,7 +412,7 @@ fn main() {
         }
     }
     // 16-bit boundary: rings of 2^16 +- 1 samples, enough calls for the write position to wrap twice
-    for lens in [vec![65535usize], vec![65536, 65537]] {
+    for lens in [vec![1024usize, 4096], vec![44100, 48000], vec![65535], vec![65536, 65537]] {
         let case = json!({"sys":"delay_soak","lens":lens,"calls":2100});
         let _guard_scope = guard::scoped(&case.to_string());
         evals += 1;
